@@ -72,20 +72,27 @@ H_ENTRY(h_mix_vtmf) {
   unsigned pi[H_N]; nth_perm(H_N, H_PERM, pi);
   TMCG_StackSecret<VTMF_CardSecret> ss; long r[H_N];
   for (unsigned i = 0; i < H_N; ++i) { VTMF_CardSecret cs; r[i] = vfh_range(0, H_Q); mpz_set_si(cs.r, r[i]); ss.push(pi[i], cs); }
+#ifdef H_TAP
+  bool tap = H_TAP;                    // slice: timing-attack protection (table power with dummy arithmetic) on / off
+#else
   bool tap = vf_nondet_u8() & 1;
+#endif
   tmcg->TMCG_MixStack(s, s2, ss, vtmf, tap);
   vf_assert(s2.size() == H_N, "mixed stack has the size of the input stack");
+#ifndef H_ABL
   for (unsigned i = 0; i < H_N; ++i) {
     unsigned j = pi[i];
     vf_assert(vfh_val(s2[i].c_1) == vfs_gpow[vfs_addq(c1[j], r[j], H_Q)], "c_1 of output card i == c_1 of input card pi[i] times g^r");
     vf_assert(vfh_val(s2[i].c_2) == vfs_gpow[vfs_addq(c2[j], vfs_mulq(x, r[j]), H_Q)], "c_2 of output card i == c_2 of input card pi[i] times h^r");
     vf_assert(open_card(s2[i], x) == open_exp(c1[j], c2[j], x), "output card i opens to the message of input card pi[i]");
   }
+#elif H_ABL == 2
+  for (unsigned i = 0; i < H_N; ++i) { unsigned j = pi[i]; vf_assert(vfh_val(s2[i].c_1) == vfs_gpow[vfs_addq(c1[j], r[j], H_Q)], "c_1 only"); }
+#endif
   H_END();
 }
 
-// scripted bounded sampler for the permutation / rotation generators (contract: value in [0, m); the sampler itself is C07)
-extern "C" unsigned long vfstub_random_mod(unsigned long m) { vf_assume(m >= 1); return m == 1 ? 0 : vf_nondet_below(m); }
+// (the bounded sampler of the permutation / rotation generators is vfstub_random_mod in vfh_shuffle.hh)
 #ifndef H_CYCLIC
 #define H_CYCLIC 0
 #endif
